@@ -259,8 +259,14 @@ def attrs_model(case):
         mv = model_value(v)
         if n in final:
             base = final[n][0]
+            def _txt(x):
+                # numbers take part in appending as their text ("appending each extra keyword value ... separated by one space");
+                # what None / True / False mean in an append is not stated anywhere
+                return str(x) if isinstance(x, (int, float)) and not isinstance(x, bool) else x
+
+            base, mv = _txt(base), _txt(mv)
             if not isinstance(base, str) or not isinstance(mv, str):
-                raise OutOfDomain("non-string value appended under %r" % n)
+                raise OutOfDomain("None / bool value appended under %r" % n)
             final[n] = [base + " " + mv, final[n][1] and bool(v.get("safe"))]
             appended.add(n)
         else:
@@ -464,7 +470,12 @@ def _second_use_of_defaults(case, col=None):
 
 
 def _attrs_check(case, col=None):
-    expected, verbatim, info = attrs_model(case)
+    try:
+        expected, verbatim, info = attrs_model(case)
+    except OutOfDomain:
+        if col is not None:
+            col.case(None, False, labels=("attrs:outside_domain",))
+        return []
     labels, nt = attrs_labels(case, info)
     if col is not None:
         col.case(jhash(case) if nt else None, nt, sample=case if nt else None, labels=labels)
@@ -612,6 +623,12 @@ def attrs_strategy():
                     return sval(draw(harmless if appended else safe_txt), safe=True)
                 return sval(draw(st.one_of(hostile, hostile, harmless)))
 
+            def str_or_num():
+                # appended positions: mostly strings, sometimes a number (data-count=count, tabindex=i)
+                if not safe_key and draw(st.integers(0, 9)) < 2:
+                    return draw(number)
+                return string_val()
+
             def any_val():
                 kind = draw(st.sampled_from(["s", "s", "s", "num", "bn"]))
                 if kind == "s":
@@ -628,11 +645,11 @@ def attrs_strategy():
                 if in_a:
                     Dd.append([name, free_val()])
                 else:
-                    Dd.append([name, string_val() if appended else any_val()])
+                    Dd.append([name, str_or_num() if appended else any_val()])
             if in_a:
-                A.append([name, string_val() if appended else any_val()])
+                A.append([name, str_or_num() if appended else any_val()])
             for _ in range(nkw):
-                KW.append([name, string_val() if appended else any_val()])
+                KW.append([name, str_or_num() if appended else any_val()])
 
         def is_harmless_lit(val):
             t = val["t"]
